@@ -67,6 +67,8 @@ def shards(tier, seed):
         out.append({"kind": "hostile", "sub": i, "n": 500 if q else 8000})
     for i in range(2 if q else 8):
         out.append({"kind": "upgrade", "sub": i, "n": 14 if q else 60})
+    for i in range(2 if q else 8):
+        out.append({"kind": "dualpause", "sub": i, "n": 40 if q else 400})
     return out
 
 
@@ -79,13 +81,15 @@ def make_upgrade(i, beh, rng):
     return b"GET /r%d HTTP/1.1\r\n" % i + b"\r\n".join(hs) + b"\r\n\r\n"
 
 
-def make_request(i, beh, rng, kind=None, version=b"HTTP/1.1", close=False):
+def make_request(i, beh, rng, kind=None, version=b"HTTP/1.1", close=False, blen=None):
     kind = kind or rng.choice(["none", "length", "chunked"])
     m = {"none": rng.choice([b"GET", b"GET", b"HEAD", b"DELETE"]), "length": rng.choice([b"POST", b"PUT"]), "chunked": b"POST"}[kind]
     hs = [b"Host: h", b"X-B: " + beh.encode()]
     body = b""
     if kind == "length":
         n = rng.choice([0, 1, 10, 200, 3000])
+        if blen is not None:
+            n = blen
         body = bytes(rng.choice(b"abcdef\r\n") for _ in range(n))
         hs.append(b"Content-Length: %d" % n)
     elif kind == "chunked":
@@ -360,6 +364,12 @@ def check(case, sr, out, obs, th, qcap, never, rec):
                 # the connection sits in "upgraded" mode with buffered bytes although the upgrade was declined
                 mech = "O4:declined-upgrade-tail-never-reparsed"
             v.append((mech, f"{nreq} complete requests, {complete_resps} complete responses, transport open, no handler running; handled={obs['handled']}"))
+        elif complete_resps < nreq and not has_reject and starved(case, sr, obs, never, nreq):
+            # a handler is alive but only because it waits for request bytes the peer has long handed over: the server
+            # stopped reading for good although nothing that could make it read again is pending
+            v.append(("O4:reading-paused-for-good-with-undelivered-request-bytes",
+                      f"{nreq} complete requests sent, {complete_resps} complete responses, transport open, server side paused reading with "
+                      f"{len(sr.pipe.a.out)} request bytes undelivered at quiescence ({obs['state']}); handled={len(obs['handled'])} queued={len(sr.proto._messages)}"))
     return v
 
 
@@ -378,6 +388,20 @@ def handler_alive(sr, never):
     th = sr.task_handler
     cur = sr.proto._current_request if hasattr(sr.proto, "_current_request") else None
     return bool(sr.proto._request_in_progress)
+
+
+def starved(case, sr, obs, never, nreq):
+    """Quiescence with the server's transport paused while the peer still holds request bytes, and no handler that
+    could legitimately keep the connection waiting (never / long or many sleeps / stalled reader)."""
+    a, b = sr.pipe.a, sr.pipe.b
+    if b.reading or b.closing or not a.out or a.stalled or b.stalled:
+        return False
+    if any(not f.done() for f in never) or obs["state"] not in ("quiescent", "time"):
+        return False
+    behs = case.behs[:nreq]
+    if any(x in ("never", "sleep30") for x in behs):
+        return False
+    return sum(1 for x in behs if x == "sleep1") + (case.stall or 0) < 45
 
 
 def report(case, v, obs, rec, sample_every=0):
@@ -489,6 +513,48 @@ def run_shard(spec, rec):
             report(case, v, obs, rec)
             if i % 11 == 0:
                 rec.sample({"kind": "deep", "depth": depth, "queue_max": obs["queue_max"], "handled": len(obs["handled"])})
+    elif kind == "dualpause":
+        # both reasons for not reading at once: one read fills the message queue (cap 32) and carries more than the body
+        # reader's high-water mark (2 x read_bufsize) of the body of the message at / near the cap; the rest of that body and
+        # further pipelined requests follow in later reads.  The handler of that message reads its body when it runs (queue
+        # drains first), or does not read it at all; the head of the pipeline may be busy.
+        for i in range(spec["n"]):
+            rb = rng.choice([64, 256, 1024, 4096])
+            k = rng.choice([28, 30, 31, 31, 31, 32, 33])  # index of the body-bearing message
+            behs = [rng.choice(["ret", "ret", "ret", "ignore", "stream2"]) for _ in range(k)]
+            if rng.random() < 0.4:
+                behs[0] = "sleep1"
+            bbeh = rng.choice(["read", "read", "read", "ignore", "ret", "stream2"])
+            ntail = rng.choice([1, 1, 2, 5, 20])
+            tbehs = [rng.choice(["ret", "ret", "read", "stream2"]) for _ in range(ntail)]
+            blen = rng.choice([rb, 2 * rb - 1, 2 * rb, 2 * rb + 1, 3 * rb, 4 * rb + 7, 8 * rb, 2 * rb + rng.randint(2, 3000)])
+            head = b"".join(make_request(j, b, rng, kind=rng.choice(["none", "none", "none", "length"]) if j else "none",
+                                         blen=rng.choice([0, 1, 10])) for j, b in enumerate(behs))
+            big = make_request(k, bbeh, rng, kind="length", blen=blen)
+            tail = b"".join(make_request(k + 1 + j, b, rng, kind=rng.choice(["none", "none", "length"]), blen=rng.choice([0, 10, rb, 3 * rb]))
+                            for j, b in enumerate(tbehs))
+            S = head + big + tail
+            b0 = len(head) + len(big) - blen  # stream offset of the first body byte
+            first = min(blen, rng.choice([0, 1, rb, 2 * rb - 1, 2 * rb, 2 * rb + 1, 3 * rb, blen - 1, blen, rng.randint(0, blen)]))
+            cuts = {b0 + first}
+            if first < blen:
+                cuts.add(b0 + rng.randint(first, blen))
+                if rng.random() < 0.5:
+                    cuts.add(b0 + blen)
+            for _ in range(rng.choice([0, 1, 3])):
+                cuts.add(rng.randint(b0 + blen, len(S)))
+            if rng.random() < 0.15:
+                cuts.add(rng.randint(1, len(head)))
+            cuts = sorted(c for c in cuts if 0 < c < len(S))
+            allb = behs + [bbeh] + tbehs
+            case = Case(S, allb, ("cuts", cuts), stall=rng.choice([None, None, 1.0]), ctx="queue-cap+body-flow-control",
+                        server_kw={"read_bufsize": rb})
+            v, obs = run_case(case, rec)
+            report(case, v, obs, rec)
+            rec.count("dualpause-cases")
+            if i % 13 == 0:
+                rec.sample({"kind": "dualpause", "read_bufsize": rb, "body-at": k, "body-len": blen, "in-first-read": first, "handler": bbeh,
+                            "queue_max": obs["queue_max"], "handled": len(obs["handled"]), "closed": obs["closed"]})
     elif kind == "hostile":
         L, C, N = G.rich_bases(rng)
         muts = G.mutation_classes(rng, L, C, N)
